@@ -60,20 +60,30 @@ def build(targets, timeout=1500):
         return r.returncode == 0, (r.stdout + r.stderr), time.time() - t0
 
 
-def grep_forbidden(pid):
-    """Forbidden tokens in the model / props / lemma sources of one property
-    (comments stripped).  Returns list of (file, token)."""
-    hits = []
-    files = []
-    for sub in ("Model", "Props", "Lemmas", "Generated", "Driver"):
-        d = os.path.join(LEAN_DIR, "BreezyVerif", sub)
-        if not os.path.isdir(d):
+def _module_closure(pid):
+    """files of the property's own modules and everything they import inside BreezyVerif"""
+    roots = ["BreezyVerif.Props.%s" % pid, "BreezyVerif.Props.%sT1" % pid, "BreezyVerif.Driver.%s" % pid,
+             "BreezyVerif.Model.%s" % pid]
+    seen, todo, files = set(), list(roots), []
+    while todo:
+        m = todo.pop()
+        if m in seen:
             continue
-        for fn in sorted(os.listdir(d)):
-            if fn.endswith(".lean"):
-                files.append(os.path.join(d, fn))
-    files.append(os.path.join(LEAN_DIR, "BreezyVerif", "Common.lean"))
-    for f in files:
+        seen.add(m)
+        f = os.path.join(LEAN_DIR, *m.split(".")) + ".lean"
+        if not os.path.exists(f):
+            continue
+        files.append(f)
+        for imp in re.findall(r"^\s*import\s+(BreezyVerif\.[A-Za-z0-9_.]+)", open(f).read(), re.M):
+            todo.append(imp)
+    return sorted(files)
+
+
+def grep_forbidden(pid):
+    """Forbidden tokens in the sources of the property's modules and their
+    BreezyVerif imports (comments stripped).  Returns list of (file, token)."""
+    hits = []
+    for f in _module_closure(pid):
         src = _strip_comments(open(f).read())
         for m in FORBIDDEN.finditer(src):
             hits.append((os.path.relpath(f, LEAN_DIR), m.group(0).strip()))
